@@ -489,9 +489,27 @@ impl ElfLinker {
                         "Could not load R_MIPS_REL32 at 0x{:x}",
                         dynrel.r_offset + elf.base_address()
                     ))?;
+                // A relocation against a global symbol (one with a GOT entry)
+                // adds the address of that symbol, every other one the base
+                // address of this object.
+                let addend = if dynrel.r_sym != 0 && dynrel.r_sym as u64 >= gotsym {
+                    let sym = dynsyms
+                        .get(dynrel.r_sym)
+                        .ok_or(format!("Could not get symbol {}", dynrel.r_sym))?;
+                    let symbol_name = dynstrtab
+                        .get_at(sym.st_name)
+                        .ok_or(format!("Could not get symbol name for {}", dynrel.r_sym))?;
+                    *self
+                        .symbols
+                        .get(symbol_name)
+                        .ok_or_else(|| Error::ElfLinkerMissingSymbol(symbol_name.to_string()))?
+                        as u32
+                } else {
+                    elf.base_address() as u32
+                };
                 self.memory.set32(
                     dynrel.r_offset + elf.base_address(),
-                    value + (elf.base_address() as u32),
+                    value.wrapping_add(addend),
                 )?;
             }
         }
